@@ -1,6 +1,9 @@
 //! Verification engine for Artem-Romanenia/o2o (property-based testing and fuzzing).
 pub mod dsl;
 pub mod e2;
+pub mod plan_enum;
+pub mod plan_flat;
+pub mod plan_parent;
 pub mod plan_struct;
 pub mod evidence;
 pub mod gen;
